@@ -522,47 +522,56 @@ Open Scope Z_scope.
 """
 
 
-def generate(kernels: t.Sequence[Kernel]) -> t.Dict[str, dict]:
-    """Writes coq/gen/Kernels.v (only when its content changes). Returns per-kernel status."""
-    _AST_CACHE.clear()
-    status: t.Dict[str, dict] = {}
-    out = [HEADER]
-    for k in kernels:
-        fb_path = os.path.join(COQ, "gen_fallback", k.name + ".v")
-        try:
-            if isinstance(k, FuncKernel):
-                text = translate_func(k)
-                status[k.name] = {"located": True, "source": f"<whole body of {k.func}>"}
-            else:
-                text = translate(k)
-                status[k.name] = {"located": True, "source": python_source(k)}
-        except (Unsupported, OSError, SyntaxError) as exc:
-            status[k.name] = {"located": False, "reason": str(exc)}
-            if not os.path.exists(fb_path):
-                raise RuntimeError(f"kernel {k.name} not located and no fallback: {exc}")
-            with open(fb_path) as fh:
-                text = fh.read()
-        status[k.name]["text"] = text
-        out.append(text + "\n")
+def generate(kernels=None) -> t.Dict[str, dict]:
+    """Writes coq/gen/<file>.v per area (only when content changes). Returns per-kernel status.
+    A kernel that is not located falls back to coq/gen_fallback/<name>.v; without a fallback it is
+    omitted (only that area's model then fails to build)."""
     from . import kernel_table as _kt
 
-    for prop, file, fsync, fasync, ren in getattr(_kt, "TWINS", []):
-        same, why = same_modulo_async(file, fsync, fasync, ren)
-        nm = "twin_" + fsync.strip("_").replace(".", "_")
-        status[nm] = {"located": True, "source": f"{file}: {fsync} vs {fasync}: {why}", "same": same}
-        cmt = why.replace("(*", "( *").replace("*)", "* )")
-        out.append(f"(* {file}: {fsync} and {fasync} compared as normalised ASTs: {cmt} *)\n"
-                   f"Definition {nm} : bool := {'true' if same else 'false'}.\n\n")
-    new = "".join(out)
-    path = os.path.join(COQ, "gen", "Kernels.v")
-    old = None
-    if os.path.exists(path):
-        with open(path) as fh:
-            old = fh.read()
-    if old != new:
-        os.makedirs(os.path.dirname(path), exist_ok=True)
-        with open(path, "w") as fh:
-            fh.write(new)
+    _AST_CACHE.clear()
+    status: t.Dict[str, dict] = {}
+    for area, mod in _kt.areas().items():
+        if isinstance(mod, Exception):
+            status[f"ktab_{area}"] = {"located": False, "reason": f"table import failed: {mod}", "text": ""}
+            continue
+        out = [HEADER]
+        for k in getattr(mod, "KERNELS", []):
+            fb_path = os.path.join(COQ, "gen_fallback", k.name + ".v")
+            try:
+                if isinstance(k, FuncKernel):
+                    text = translate_func(k)
+                    status[k.name] = {"located": True, "source": f"<whole body of {k.func}>"}
+                else:
+                    text = translate(k)
+                    status[k.name] = {"located": True, "source": python_source(k)}
+            except (Unsupported, OSError, SyntaxError) as exc:
+                status[k.name] = {"located": False, "reason": str(exc)}
+                if os.path.exists(fb_path):
+                    with open(fb_path) as fh:
+                        text = fh.read()
+                else:
+                    status[k.name]["reason"] += " (no committed fallback: omitted)"
+                    text = f"(* kernel {k.name} not located and no fallback *)\n"
+            status[k.name]["text"] = text
+            status[k.name]["props"] = list(k.props)
+            out.append(text + "\n")
+        for prop, file, fsync, fasync, ren in getattr(mod, "TWINS", []):
+            same, why = same_modulo_async(file, fsync, fasync, ren)
+            nm = "twin_" + fsync.strip("_").replace(".", "_")
+            status[nm] = {"located": True, "source": f"{file}: {fsync} vs {fasync}: {why}", "same": same, "props": [prop]}
+            cmt = why.replace("(*", "( *").replace("*)", "* )")
+            out.append(f"(* {file}: {fsync} and {fasync} compared as normalised ASTs: {cmt} *)\n"
+                       f"Definition {nm} : bool := {'true' if same else 'false'}.\n\n")
+        new = "".join(out)
+        path = os.path.join(COQ, "gen", _kt.kernel_file(area))
+        old = None
+        if os.path.exists(path):
+            with open(path) as fh:
+                old = fh.read()
+        if old != new:
+            os.makedirs(os.path.dirname(path), exist_ok=True)
+            with open(path, "w") as fh:
+                fh.write(new)
     return status
 
 
@@ -616,9 +625,16 @@ def same_modulo_async(file: str, sync_name: str, async_name: str, renames: t.Dic
     return False, d
 
 
-def write_fallbacks(kernels: t.Sequence[Kernel]) -> None:
+def write_fallbacks(kernels=None) -> None:
+    """Commit-time helper: store the current translation of every located kernel as its fallback."""
+    from . import kernel_table as _kt
+
     os.makedirs(os.path.join(COQ, "gen_fallback"), exist_ok=True)
-    for k in kernels:
-        text = translate_func(k) if isinstance(k, FuncKernel) else translate(k)
+    for k in _kt.all_kernels():
+        try:
+            text = translate_func(k) if isinstance(k, FuncKernel) else translate(k)
+        except Unsupported as exc:
+            print("not located:", k.name, exc)
+            continue
         with open(os.path.join(COQ, "gen_fallback", k.name + ".v"), "w") as fh:
             fh.write(text)
